@@ -1580,7 +1580,7 @@ def c19(ctx):
     seqs.sort(key=lambda q: json.dumps(q, sort_keys=True))
     if ctx.tier != "thorough":
         must = [q for q in seqs if [o["m"] for o in q] in (["HEAD", "GET"], ["HEAD", "GET", "GET"], ["GET", "GET", "GET"], ["GET", "HEAD", "GET"], ["POST", "GET", "GET"])
-                and not any(o["cc"] for o in q) and all(o["u"] == "u1" for o in q)]
+                and not any(o["cc"] for o in q) and all(o["u"] == "u1" for o in q) and (all(o["st"] == 200 for o in q) or q[0]["st"] == 206)]
         rest = [q for q in seqs if q not in must]
         seqs = must + random.Random(ctx.seed * 31 + 5).sample(rest, 20)
     qpath = os.path.join(ctx.scratch, "cache_cases.json")
